@@ -66,14 +66,18 @@ def sum : List Rat → Rat
 
 def postingsOf (txs : List GTx) : List GPosting := txs.flatMap (·.postings)
 
+/-- What one posting contributes to (account, commodity): its amount if it is a posting to
+    that account with an explicit amount in that commodity. -/
+def contrib (account commodity : Bytes) (p : GPosting) : Option Rat :=
+  if p.account = account then
+    match p.amount with
+    | some m => if m.com = commodity then some m.q else none
+    | none => none
+  else none
+
 /-- The amounts explicitly posted to `account` in `commodity`. -/
 def amountsOf (txs : List GTx) (account commodity : Bytes) : List Rat :=
-  (postingsOf txs).filterMap fun p =>
-    if p.account = account then
-      match p.amount with
-      | some m => if m.com = commodity then some m.q else none
-      | none => none
-    else none
+  (postingsOf txs).filterMap (contrib account commodity)
 
 /-- Exact sum per (account, commodity); `none` when nothing was explicitly posted. -/
 def accountSum? (txs : List GTx) (account commodity : Bytes) : Option Rat :=
